@@ -288,6 +288,7 @@ def check(run):
         "trusted_base": ["Coq 8.16.1 kernel, vm_compute", "C10's trusted base (translators psl_table/psl_rules, PslSpec as the algorithm)",
                          "url crate: scheme()/domain() of the parsed origin are inputs of the model", "idna crate: its verdict is an input bit (the soundness theorems assume nothing about it)",
                          "correspondence harness (pkharness rpid) + driver/c01.py",
+                         "translators/client_skeleton.py (source order of Client::register/authenticate and RpIdVerifier; the refusal theorem is about Auth/Client.v, tied to the code by the client-level correspondence of C02/C03)",
                          "Print Assumptions: %d closed under the global context, axioms: %s" % (assum["closed"], assum["with_allowed_axioms"] or "none")],
         "theorems": thms,
         "evaluations": len(terms), "distinct_nontrivial": len(sig),
